@@ -87,6 +87,12 @@ theorem recsOfName_filter_type {s : State} (hinv : RecInv s.recs) (tok n : Name)
     intro c; rw [← ht] at c
     exact hne (by omega)
 
+theorem byteOf_nat (tb : Nat) (hb : tb < 256) : byteOf (tb : Int) = some tb := by
+  unfold byteOf
+  have h1 : -128 ≤ (tb : Int) ∧ (tb : Int) ≤ 255 := by omega
+  have h2 : ((tb : Int) % 256) = tb := Int.emod_eq_of_lt (by omega) (by omega)
+  simp only [h1, and_self, if_true, h2]; rfl
+
 /-! ### resolution -/
 
 /-- a trailing dot is dropped -/
@@ -94,7 +100,7 @@ def stripDot (name : Name) : Name := if name.getLast? = some dot then name.dropL
 
 /-- one step of `resolve`: the records of the (dot-stripped) name -/
 def hop (s : State) (env : Env) (name : Name) : Option (List Rec) :=
-  if name.length = 0 then none else allRecords s env (stripDot name) none
+  if name.length = 0 then none else allRecords s env (stripDot name)
 
 def dataOf (typ : Int) (rs : List Rec) : List Bytes := (rs.filter (fun r => r.typ == typ)).map (·.data)
 def cnameOf (rs : List Rec) : Name := ((rs.filter (fun r => r.typ == cnameType)).map (·.data)).getLastD []
